@@ -13,7 +13,7 @@ func init() {
 		ID:    "C05",
 		Title: "Written entity's media type is produced by the route and best for Accept",
 		Decided: "C05.a every piece cut from Accept / Content-Type / Access-Control-Request-Headers is trimmed after its last cut before it is compared, looked up or parsed (router and writer side alike); C05.b no result-affecting dependence on map iteration order on the request path; C05.c Content-Type is set before the status is written, with the accessor's own type, which the built-in registrations bind to the key they are registered under; " +
-			"C05.d the Response is given the request's Accept header verbatim and the selected route's Produces; C05.e inside the negotiation loop an entity writer is only returned for a media type taken from the route's Produces (directly, or an Accept range shown equal to a Produces entry); C05.g a framework filter passes on the pair it received; C05.h registry keys are normalised alike on registration and lookup; C05.f Accept ranges are ranked by a stable insertion (strictly-greater test), not by an unstable sort. Header text is never searched for a literal that spans a separator and a neighbouring token (such as \"q=\"), which optional whitespace would defeat. C05.i where a token of Accept/Content-Type is compared for equality with a declared value, both operands were case-folded by the same functions or neither. C05.j a number (q-value) is parsed from a piece that was cut at every separator of its level.",
+			"C05.d the Response is given the request's Accept header verbatim and the selected route's Produces; C05.e inside the negotiation loop an entity writer is only returned for a media type taken from the route's Produces (directly, or an Accept range shown equal to a Produces entry); C05.g a framework filter passes on the pair it received; C05.h registry keys are normalised alike on registration and lookup; C05.f Accept ranges are ranked by a stable insertion (strictly-greater test), not by an unstable sort. Header text is never searched for a literal that spans a separator and a neighbouring token (such as \"q=\"), which optional whitespace would defeat. C05.i where a token of Accept/Content-Type is compared for equality with a declared value, both operands were case-folded by the same functions or neither. C05.j a number (q-value) is parsed from a piece that was cut at every separator of its level. C05.k in a loop over the elements of a comma-separated header value no branch is decided by a lookup in a map the same loop fills.",
 		NotDecided: "the q-value ordering and the fallback order as values (ranking semantics over the Accept grammar); 'never 406 after the router admitted' beyond C05.a, which removes the only divergence found by reading.",
 		Rules: []Rule{
 			{ID: "C05.a", Template: "T-TOKEN", Required: true, Run: ruleTokenAll,
@@ -30,6 +30,8 @@ func init() {
 				Doc: "Header order on ties: equal q keeps header order. sort.Slice/sort.Sort are not stable (only small inputs happen to be), and a non-strict insertion test reverses ties."},
 			{ID: "C05.g", Template: "T-PROV", Required: true, Run: ruleC15e,
 				Doc: "The Response the handler writes to is the one that was given the route's Produces and the request's Accept: a framework filter continues the chain with the very pair it received, never with a new wrapper (which knows neither and negotiates against nothing)."},
+			{ID: "C05.k", Template: "T-EFFECT", Required: false, Run: ruleHeaderElementsIndependent,
+				Doc: "Every range of the Accept header takes part in the ranking: in a loop over the elements of a comma-separated header value no branch is decided by a lookup in a map the same loop fills. A 'seen' set skips the second occurrence of a range, which may be the one with the higher q-value."},
 			{ID: "C05.j", Template: "T-TOKEN", Required: false, Run: ruleNumberFullyCut,
 				Doc: "A q-value is parsed from a piece that was cut at every separator of its level. The last element of SplitN(piece, \";\", 2) or the part after strings.Cut is everything behind the first ';': with a further parameter behind the q-value the number does not parse, the range counts as q=1 and a representation the client ranked low is chosen."},
 			{ID: "C05.i", Template: "T-SIBLING", Required: true, Run: ruleFoldingAgreement,
